@@ -1886,3 +1886,21 @@ Example teardown_history :
   | None => False
   end.
 Proof. vm_compute. split; reflexivity. Qed.
+
+(* ------------------------------------------------------------------ the second may-reject class (what the driver enforces) *)
+(* whatever the may-reject flag: an admissible verdict never accepts what the specification rejects ... *)
+Lemma admissible_verdict2_sound may t m i : admissible_verdict2 may t m i = true -> i = true -> m = true.
+Proof.
+  unfold admissible_verdict2. destruct may; [destruct i, m; simpl; congruence | apply admissible_verdict_sound].
+Qed.
+(* ... and outside both may-reject classes (Ethernet tuple, cookie not dated in the future) it IS the specification *)
+Lemma admissible_verdict2_exact t m i : ethernet_tuple t = true -> admissible_verdict2 false t m i = true -> i = m.
+Proof. intros He. unfold admissible_verdict2. apply admissible_verdict_ethernet. exact He. Qed.
+(* the future-dated class is empty as long as the clock does not run backwards: every issued cookie is dated <= now *)
+Lemma future_dated_empty iss now c :
+  Forall (fun i => let '(_, _, ts) := i in (Z.of_N ts * ns_per_s <= now)%Z) iss -> future_dated iss now c = false.
+Proof.
+  intros Hall. unfold future_dated. destruct (existsb _ iss) eqn:E; [|reflexivity]. exfalso.
+  apply existsb_exists in E as ([[c' t'] ts] & Hin & Hb). apply andb_true_iff in Hb as [_ Hlt].
+  rewrite Coq.Lists.List.Forall_forall in Hall. specialize (Hall _ Hin). simpl in Hall. apply Z.ltb_lt in Hlt. lia.
+Qed.
